@@ -210,6 +210,74 @@ def run_case(ctx, h, tmp):
         ctx.sample({'case': h, 'constructs': len(before), 'document_head': open(path).read()[:400]})
 
 
+def restructure_pkg(rng, pkg):
+    """rename a subpackage or a class, move a class into another package: what a metamodel under development goes through
+    between two saves"""
+    from pyecore import ecore as E
+    done = []
+    for _ in range(rng.randint(1, 2)):
+        pkgs = [pkg] + [p for p in pkg.eAllContents() if isinstance(p, E.EPackage)]
+        classes = [c for p in pkgs for c in p.eClassifiers if isinstance(c, E.EClass)]
+        k = rng.random()
+        subs = [p for p in pkgs if p is not pkg]
+        if k < .4 and subs:
+            p = rng.choice(subs)
+            new = p.name + 'R'
+            if all(q.name != new for q in p.eSuperPackage.eSubpackages):
+                p.name = new
+                done.append(f'subpackage renamed to {new}')
+        elif k < .75 and classes and len(pkgs) > 1:
+            c = rng.choice(classes)
+            targets = [p for p in pkgs if p is not c.ePackage and all(x.name != c.name for x in p.eClassifiers)]
+            if targets:
+                t = rng.choice(targets)
+                t.eClassifiers.append(c)
+                done.append(f'class {c.name} moved to package {t.name}')
+        elif classes:
+            c = rng.choice(classes)
+            new = c.name + 'R'
+            if all(x.name != new for x in c.ePackage.eClassifiers):
+                c.name = new
+                done.append(f'class renamed to {new}')
+    return done
+
+
+def resave_case(ctx, h, tmp):
+    """save, restructure the metamodel in memory, save the same resource again, load: the second file describes the
+    metamodel as it is now"""
+    from pyecore.resources import ResourceSet, URI
+    rng = common.sub_rng(ctx.seed, 'C10', 'resave', h)
+    pkg = gen_metamodel(rng, h)
+    path = os.path.join(tmp, f'resave{h}.ecore')
+    rep = {'case': h, 'pass': 'resave'}
+    try:
+        rs = ResourceSet()
+        r = rs.create_resource(URI(path))
+        r.append(pkg)
+        r.save()
+        done = restructure_pkg(rng, pkg)
+        if not done:
+            ctx.count('resave/nothing-to-change')
+            return
+        rep['changes'] = done
+        ctx.evaluations += 1
+        now = signature(pkg)
+        r.save()
+        back = ResourceSet().get_resource(URI(path)).contents[0]
+        after = signature(back)
+    except Exception as e:
+        import traceback
+        tb = [l.strip() for l in traceback.format_exc().splitlines() if 'pyecore' in l]
+        ctx.violate({'clause': 'resave-raised', 'error': type(e).__name__},
+                    f'save / restructure / save / load of a metamodel raised {type(e).__name__}: {str(e)[:100]} at {tb[-1] if tb else ""}', rep)
+        return
+    ctx.count('resave/done')
+    ctx.nontriv(('resave', h))
+    if now != after:
+        d = next(((a, b) for a, b in zip(now, after) if a != b), (len(now), len(after)))
+        ctx.violate({'clause': 'second-save-stale'}, f'after {done}, the second save does not describe the metamodel as it is: {d[0]!r} -> {d[1]!r}', rep)
+
+
 def run_case_multi(ctx, h, tmp):
     """several root packages in one .ecore file (an xmi:XMI wrapper), classes of the same name under different roots,
     references, supertypes and operation types across the roots"""
@@ -298,7 +366,7 @@ def run(ctx):
     ctx.rule = (f'{n} generated metamodels (packages/sub-packages, classes, abstract/interface, multiple inheritance, attributes and '
                 'references with bounds/ordering/uniqueness/containment/iD/default literals/opposites, enumerations, data types with '
                 'instanceClassName, operations with parameters, annotations; collections filled by append, insert or extend; one third as many files with several root packages holding same-named classes referred to across the roots) saved as .ecore, reloaded in a fresh resource set, compared '
-                'by structural signature, reloaded classes instantiated; plus every .ecore shipped under tests/ and examples/ that loads '
+                'by structural signature, reloaded classes instantiated; half as many metamodels saved, restructured in memory (subpackage / class renamed, class moved to another package) and saved again through the same resource; plus every .ecore shipped under tests/ and examples/ that loads '
                 'on its own. non-trivial & distinct = metamodels that saved and loaded')
     tmp = tempfile.mkdtemp(prefix='verif_c10_')
     try:
@@ -306,6 +374,8 @@ def run(ctx):
             run_case(ctx, h, tmp)
         for h in range(n // 3):
             run_case_multi(ctx, h, tmp)
+        for h in range(n // 2):
+            resave_case(ctx, h, tmp)
         corpus(ctx, tmp)
     finally:
         shutil.rmtree(tmp, ignore_errors=True)
@@ -322,6 +392,8 @@ def replay(ctx, data):
     try:
         if data['replay'].get('multi'):
             run_case_multi(c2, data['replay']['case'], tmp)
+        elif data['replay'].get('pass') == 'resave':
+            resave_case(c2, data['replay']['case'], tmp)
         elif 'case' in data['replay']:
             run_case(c2, data['replay']['case'], tmp)
         else:
